@@ -1331,6 +1331,12 @@ class X:
             return r
         raise Unsupported('list comprehension')
 
+    def ex_DictComp(self, e):
+        r = self.contract.genexp_hook(self, e)
+        if r is not None:
+            return r
+        raise Unsupported('dict comprehension')
+
     def ex_Dict(self, e):
         r = self.contract.construct_hook(self, dict, [], {})
         if r is not None and not e.keys:
